@@ -1,8 +1,10 @@
 package main
 
 import (
+	"fmt"
 	"go/token"
 	"go/types"
+	"strings"
 
 	"golang.org/x/tools/go/ssa"
 )
@@ -185,4 +187,137 @@ func typeSwitchDefaultEdges(fn *ssa.Function, minCases int) [][2]*ssa.BasicBlock
 		}
 	}
 	return out
+}
+
+// errNilOnAllPathsTo: on every feasible path from the call c (whose error result is errVal) to
+// the instruction use, errVal is known nil. Branches on `errVal ==/!= nil` and on pure predicates
+// applied to errVal (streams.IsUnmatchedErr) are followed with their outcome remembered, so that
+// `if err != nil && !U(err) { return } else if U(err) { return }` leaves only err == nil — which
+// the block-level must-facts lose at the merge in front of the second test.
+func errNilOnAllPathsTo(fn *ssa.Function, c *ssa.Call, errVal ssa.Value, use ssa.Instruction) bool {
+	type state struct {
+		nl    int    // nil-ness of errVal
+		preds string // remembered predicate outcomes, canonical
+	}
+	type key struct {
+		b *ssa.BasicBlock
+		s state
+	}
+	seen := map[key]bool{}
+	budget := 20000
+	ok := true
+	predKey := func(v ssa.Value) string {
+		call, isCall := v.(*ssa.Call)
+		if !isCall {
+			return ""
+		}
+		f := call.Common().StaticCallee()
+		if f == nil || !isPurePredicate(f) || len(call.Common().Args) != 1 || call.Common().Args[0] != errVal {
+			return ""
+		}
+		return f.Name()
+	}
+	var walk func(b *ssa.BasicBlock, from int, s state)
+	walk = func(b *ssa.BasicBlock, from int, s state) {
+		if !ok {
+			return
+		}
+		budget--
+		if budget < 0 {
+			ok = false
+			return
+		}
+		if from == 0 {
+			k := key{b, s}
+			if seen[k] {
+				return
+			}
+			seen[k] = true
+		}
+		for i := from; i < len(b.Instrs); i++ {
+			if b.Instrs[i] == use {
+				if s.nl != nlNil {
+					ok = false
+				}
+				return
+			}
+		}
+		last := b.Instrs[len(b.Instrs)-1]
+		iff, isIf := last.(*ssa.If)
+		if !isIf {
+			for _, sc := range b.Succs {
+				walk(sc, 0, s)
+			}
+			return
+		}
+		cond := iff.Cond
+		neg := false
+		for {
+			if u, isNot := cond.(*ssa.UnOp); isNot && u.Op == token.NOT {
+				cond = u.X
+				neg = !neg
+				continue
+			}
+			break
+		}
+		// outcome of cond on the true successor is !neg, on the false successor neg
+		for si, sc := range b.Succs {
+			val := si == 0 // value of iff.Cond on this edge
+			if neg {
+				val = !val // value of the stripped condition
+			}
+			s2 := s
+			feasible := true
+			if bo, isBo := cond.(*ssa.BinOp); isBo && (bo.Op == token.EQL || bo.Op == token.NEQ) {
+				var side ssa.Value
+				if k, isC := bo.Y.(*ssa.Const); isC && k.IsNil() {
+					side = bo.X
+				} else if k, isC := bo.X.(*ssa.Const); isC && k.IsNil() {
+					side = bo.Y
+				}
+				if side == errVal {
+					isNil := (bo.Op == token.EQL) == val
+					want := nlNonNil
+					if isNil {
+						want = nlNil
+					}
+					if s.nl != nlUnknown && s.nl != want {
+						feasible = false
+					}
+					s2.nl = want
+				}
+			} else if pk := predKey(cond); pk != "" {
+				tag := pk + "=" + fmt.Sprint(val) + ";"
+				anti := pk + "=" + fmt.Sprint(!val) + ";"
+				if strings.Contains(s.preds, anti) {
+					feasible = false
+				}
+				// IsUnmatchedErr(nil) is false
+				if pk == "IsUnmatchedErr" && val {
+					if s.nl == nlNil {
+						feasible = false
+					}
+					s2.nl = nlNonNil
+				}
+				if !strings.Contains(s.preds, tag) {
+					s2.preds = s.preds + tag
+				}
+			}
+			if feasible {
+				walk(sc, 0, s2)
+			}
+		}
+	}
+	// start after the call
+	start := -1
+	for i, ins := range c.Block().Instrs {
+		if ins == ssa.Instruction(c) {
+			start = i + 1
+		}
+	}
+	if start < 0 {
+		return false
+	}
+	walk(c.Block(), start, state{})
+	return ok
 }
